@@ -43,6 +43,7 @@ pub enum Dev {
     SdReplace(usize, Value),      // _sd is "str" / {} / null / [] / 5
     SdRefsArrayDisclosure(usize), // a 2-element disclosure referenced from _sd
     SdEntrySpelling(usize, u8),   // first entry respelled: 0 "=" appended, 1 standard base64 alphabet, 2 trailing space, 3 leading space, 4 "==" appended, 5 percent-encoded
+    SdTwin(usize, u8),            // one more referenced 3-element disclosure (own salt) whose name AND value equal those of: mode 0 the first visible sibling, mode 1 the first hidden member
     SdOdd(usize, u8, u8),         // a string of non-digest shape (odd_shape) listed: mode 0 once (an unmatched entry), 1 twice, 2 once + as a placeholder in a root array, 3 once + in the root's _sd
     // ---- placeholder k
     PhOdd(usize, u8, u8),          // an extra placeholder whose digest is a string of non-digest shape: mode 0 once, 1 twice
@@ -250,8 +251,16 @@ impl<'a> B<'a> {
         let mut sd: Vec<Value> = vec![];
         let visible: Vec<String> = ms.iter().filter(|x| !x.hidden).map(|x| x.name.clone()).collect();
         let mut hidden_names: Vec<String> = vec![];
+        let mut first_visible: Option<(String, Value)> = None;
+        let mut first_hidden: Option<(String, Value)> = None;
         for mem in ms {
             let v = self.node(&mem.node);
+            if mem.hidden && first_hidden.is_none() {
+                first_hidden = Some((mem.name.clone(), v.clone()));
+            }
+            if !mem.hidden && first_visible.is_none() {
+                first_visible = Some((mem.name.clone(), v.clone()));
+            }
             if mem.hidden {
                 let salt = self.salt();
                 // siblings offered for the name-collision deviation: a visible sibling first, else an earlier hidden one
@@ -283,6 +292,14 @@ impl<'a> B<'a> {
                     }
                     Dev::SdUnmatchedOnce(i) if *i == k => sd.push(json!(digest(&format!("decoy-{k}")))),
                     Dev::SdAddEntry(i, v) if *i == k => sd.push(v.clone()),
+                    Dev::SdTwin(i, mode) if *i == k => {
+                        if let Some((name, val)) = if *mode == 0 { first_visible.clone() } else { first_hidden.clone() } {
+                            let salt = self.salt();
+                            let s = b64e(serde_json::to_string(&json!([salt, name, val])).unwrap().as_bytes());
+                            self.disclosures.push(s.clone());
+                            sd.push(json!(digest(&s)));
+                        }
+                    }
                     Dev::SdOdd(i, shape, mode) if *i == k => {
                         let o = json!(odd_shape(*shape));
                         sd.push(o.clone());
@@ -387,6 +404,8 @@ pub fn bases() -> Vec<(&'static str, Vec<Member>)> {
         ("no_sd_at_all", vec![m("v", leaf(json!(1)), false), m("o", Node::Obj(vec![m("k", leaf(json!([1, 2])), false)]), false)]),
         ("single_disclosure", vec![m("x", leaf(json!("only")), true)]),
         ("null_and_empty_siblings", vec![m("n", leaf(Value::Null), false), m("x", leaf(json!(1)), true), m("e", leaf(json!("")), false), m("y", leaf(Value::Null), true), m("z", leaf(json!(false)), true)]),
+        // a confirmation claim in clear (with a hidden member of its own) next to a hidden sibling
+        ("cnf_clear_and_hidden_sibling", vec![m("cnf", Node::Obj(vec![m("jwk", leaf(json!({"kty": "OKP", "crv": "Ed25519", "x": "24QLWXJ18wtbg3k_MDGhGM17Xh39UztXdgMyXO9Zlds"})), false), m("kid", leaf(json!("k1")), true)]), false), m("x", leaf(json!(1)), true)]),
         ("everything", vec![
             m("a", Node::Obj(vec![m("b", Node::Arr(vec![e(leaf(json!(1)), true), e(Node::Obj(vec![m("c", leaf(json!(2)), true)]), true)]), true), m("e", leaf(json!({})), true)]), true),
             m("f", leaf(json!([])), false),
@@ -411,6 +430,8 @@ pub fn deviations(b: &Built) -> Vec<Dev> {
             v.push(Dev::SdReplace(k, x));
         }
         v.push(Dev::SdRefsArrayDisclosure(k));
+        v.push(Dev::SdTwin(k, 0));
+        v.push(Dev::SdTwin(k, 1));
         for mode in 0..6u8 {
             v.push(Dev::SdEntrySpelling(k, mode));
         }
